@@ -261,9 +261,82 @@ theorem k_requests_any_reads_full_false : ¬ k_requests_any_reads_full := by
 
 /-! ### Non-vacuity of the positive theorems: the same three requests, read differently -/
 
-/-- request 1's caller reads "hi" to the end of the record (2-byte destination, twice), consumes
-nothing else and hands over with the stream still active; request 2's caller reads nothing -/
-def tsGood : List Turn := [⟨[w1 ++ w2], [.parse [] (some 2), .parse [] (some 2)]⟩, ⟨[], []⟩]
+/-- Request 1 and the first 30 bytes of request 2 arrive together; request 1's caller reads "hi" into
+a 2-byte destination (twice: data, then `stream_end`) and hands over with the stream still active;
+the rest of request 2 arrives; its caller reads nothing.  Request 3 is not served (not fed). -/
+def opsRead : List Op := [.parse [] (some 2), .parse [] (some 2)]
+def tsGood : List Turn := [⟨[w1 ++ w2.take 30], opsRead⟩, ⟨[w2.drop 30], []⟩]
+
+def spG : Str.Parser := Str.Parser.fromParser 256 exReq (serAll [exStdin, exStdinEnd] ++ w2.take 30) 3
+def rpG : Req.Parser := Req.Parser.fromParser 256 (serAll [exStdinEnd] ++ w2.take 30) 3
+
+theorem spG_handover : (applyOps spG opsRead).intoRequestParser = some (.ok rpG) := by
+  have h := (C05.into_request_parser_cases (applyOps spG opsRead)).2.2 (by decide +kernel) (by decide +kernel)
+  rw [show (applyOps spG opsRead).cap = 256 from by decide +kernel,
+    show (applyOps spG opsRead).raw = serAll [exStdinEnd] ++ w2.take 30 from by decide +kernel,
+    show (applyOps spG opsRead).maxConns = 3 from by decide +kernel] at h
+  exact h
+
+theorem runG1 : run .header ([] ++ (w1 ++ w2.take 30)) 3 =
+    ⟨serAll [exStdin, exStdinEnd] ++ w2.take 30, .done exReq, [], none⟩ := by
+  have := C05.run_pre_rest (rest := serAll [exStdin, exStdinEnd] ++ w2.take 30) (ex_pre 3)
+  simpa [w1, List.append_assoc] using this
+
+def oG1 : Obs := ⟨exReq, [], spG, applyOps spG opsRead⟩
+
+theorem turnG1 : turn rp0 ⟨[w1 ++ w2.take 30], opsRead⟩ = some (oG1, rpG) ∧
+    (LegalAll spG opsRead → TurnLegal rp0 ⟨[w1 ++ w2.take 30], opsRead⟩) :=
+  turn_one (cap := 256) (mc := 3) (inp := []) (new := w1 ++ w2.take 30) (by decide) (by decide +kernel)
+    (by decide +kernel) runG1 opsRead spG_handover
+
+def spG2 : Str.Parser := Str.Parser.fromParser 256 exReq (serAll [exStdinEnd]) 3
+
+theorem runG2 : run .header ((serAll [exStdinEnd] ++ w2.take 30) ++ w2.drop 30) 3 =
+    ⟨serAll [exStdinEnd], .done exReq, [], none⟩ := by
+  have h1 : (serAll [exStdinEnd] ++ w2.take 30) ++ w2.drop 30 = serAll [exStdinEnd] ++ (exPre ++ serAll [exStdinEnd]) := by
+    rw [List.append_assoc, List.take_append_drop]; rfl
+  rw [h1, C05.stale_all_skipped [exStdinEnd] (fun r hr => by rw [List.mem_singleton.1 hr]; exact ex_stale.2)]
+  exact C05.run_pre_rest (ex_pre 3)
+
+def oG2 : Obs := ⟨exReq, [], spG2, applyOps spG2 []⟩
+
+theorem turnG2 : turn rpG ⟨[w2.drop 30], []⟩ = some (oG2, Req.Parser.fromParser 256 (serAll [exStdinEnd]) 3) ∧
+    (LegalAll spG2 [] → TurnLegal rpG ⟨[w2.drop 30], []⟩) :=
+  turn_one (cap := 256) (mc := 3) (inp := serAll [exStdinEnd] ++ w2.take 30) (new := w2.drop 30) (by decide)
+    (by decide +kernel) (by decide +kernel) runG2 [] ((C05.into_request_parser_cases spG2).2.2 rfl rfl)
+
+theorem chain_good : chain rp0 tsGood = some ([oG1, oG2], Req.Parser.fromParser 256 (serAll [exStdinEnd]) 3) := by
+  simp only [chain, tsGood, turnG1.1, turnG2.1]
+
+theorem legal_good : ChainLegal rp0 tsGood := by
+  refine ⟨turnG1.2 (by decide +kernel), ?_⟩
+  intro o rp' h
+  rw [turnG1.1] at h
+  injection h with h
+  injection h with _ h2
+  subst h2
+  exact ⟨turnG2.2 trivial, fun _ _ _ => trivial⟩
+
+theorem active_good : ActiveAll [q1, q2, q3] tsGood := by
+  refine ⟨⟨5, [104, 105], [exStdin], exStdinEnd, [], opsRead, [], rfl, rfl, by decide, ?_,
+      ⟨⟨by decide, by decide, by decide⟩, rfl, rfl, rfl⟩, rfl, fun s h => (by simp [opsRead] at h), fun _ h => (by cases h)⟩,
+    ⟨5, [], [], exStdinEnd, [], [], [], rfl, rfl, by decide, .nil,
+      ⟨⟨by decide, by decide, by decide⟩, rfl, rfl, rfl⟩, rfl, fun s h => (by cases h), fun _ h => (by cases h)⟩, trivial⟩
+  exact Body.chunk [104, 105] [0, 0, 0, 0, 0, 0] 0 (by decide) (by decide) .nil
+
+/-- `k_requests_active_reads` applied: requests 1 and 2 (of 3 on the wire) are served although
+request 2's bytes were buffered while request 1's stream was read; the last request parser holds the
+unread end-of-Stdin record of request 2, and request 3 is still to come. -/
+example : [oG1, oG2].map (·.r) = [p0.request, p0.request] ∧ Results 256 3 [] [q1, q2, q3] tsGood [oG1, oG2] ∧
+    ∃ uK, (∀ e ∈ uK, IdleNoise e) ∧
+      (Req.Parser.fromParser 256 (serAll [exStdinEnd]) 3).input ++ w3 = serAll (uK ++ wireRecs [q3]) :=
+  k_requests_active_reads (cap := 256) (mc := 3) (u := []) (fut := w3) q_ok
+    (C03.fromParser_inv (input := []) 3 (Nat.zero_le _) (by decide)) rfl rfl rfl (fun _ h => by cases h)
+    (by decide) (by decide +kernel) legal_good chain_good active_good
+
+/-- `active_reads_facts` on turn 1: "hi" was delivered, all of it, and the Stdin data record consumed. -/
+example : deliveredOps spG opsRead = [104, 105] ∧ (applyOps spG opsRead).isRecordBoundary = true := by
+  decide +kernel
 
 end Example
 
